@@ -110,7 +110,7 @@ func HarnessC10_EnvChangePacketSize() {
 	// the numeral is given by its symbolic digits (so that parsing it stays linear)
 	maxDigits := 3
 	if vfThorough() {
-		maxDigits = 6
+		maxDigits = 4
 	}
 	k := vfPick("digits", 1, maxDigits)
 	size := 0
